@@ -27,7 +27,14 @@
      `InAll.C17_whole_input_valid_iff`: ill-formed bytes can hide in comments and nowhere else
      (`comment_may_hide_ill_formed_bytes`: `1;` FF is accepted as 1; `r6rs_hypothesis_needed`: the Emacs string
      syntax is excluded because of the finding below).  This is exactly the rule the direct oracle checks.
-  The same clause for the Emacs Lisp string syntax, where escape output and raw input meet in one buffer that is
+  For EVERY option set (Proofs/Utf8InputAllOptsBase.lean, Utf8InputAllOpts.lean, Utf8InputAllOptsDatum.lean;
+  namespace `InAllOpts`): `C17_whole_input_valid_all(_no_comment)`, `C17_whole_input_valid_datum_all(_no_comment)`,
+  `C17_token_input_valid_all` — the same conclusion with the R6RS hypothesis replaced by a syntactic one that is
+  only needed under the Emacs Lisp string syntax: `NoByteEsc bytes`, no backslash is directly followed by a blank,
+  `x` or an octal digit (restated below as `C17_ill_formed_input_never_accepted_all`).  It excludes exactly the
+  escapes of the recorded finding and is necessary (`noByteEsc_needed_hex/_octal/_blank/_datum`); it is
+  sufficient, not sharp (`"\x41"` is excluded too).
+  The token-level analysis for the Emacs Lisp string syntax, where escape output and raw input meet in one buffer that is
   validated as a whole (Proofs/Utf8Input.lean, Utf8InputLoopBase.lean, Utf8InputLoop.lean):
    * `C17_elisp_backslash_continuation_rejected` — a backslash followed by a continuation byte is an error
      in every state (repair 29, /repo c74523a; `C17_repair29_input_rejected` is the input that exposed it);
@@ -50,6 +57,8 @@ import LexprModel.Proofs.Utf8Input
 import LexprModel.Proofs.Utf8InputLoop
 import LexprModel.Proofs.Utf8InputAll
 import LexprModel.Proofs.Utf8InputAllDatum
+import LexprModel.Proofs.Utf8InputAllOpts
+import LexprModel.Proofs.Utf8InputAllOptsDatum
 namespace Lexpr
 namespace Parse
 
@@ -119,6 +128,22 @@ theorem C17_ill_formed_input_never_accepted {cfg : Cfg} {mode : Mode} {bytes : L
     (hr6 : cfg.opts.string = .r6rs) (hm : mode ≠ .str) (hno : ∀ b ∈ bytes, b ≠ 59) :
     Utf8.valid bytes = true :=
   InAll.C17_whole_input_valid_no_comment h hr6 hm hno
+
+/-- every option set: the Emacs Lisp string syntax needs the syntactic side condition `NoByteEsc` (no
+    backslash directly followed by a blank, `x` or an octal digit), which excludes exactly the recorded finding -/
+theorem C17_ill_formed_input_never_accepted_all {cfg : Cfg} {mode : Mode} {bytes : List UInt8}
+    {faulty : Bool} {v : Value} {S' : St}
+    (h : fromTrait cfg (initSt mode bytes faulty) = .ok v S')
+    (hm : mode ≠ .str) (hno : ∀ b ∈ bytes, b ≠ 59) (hnb : InAllOpts.NoByteEsc bytes) :
+    Utf8.valid bytes = true :=
+  InAllOpts.C17_whole_input_valid_all_no_comment h hm hno hnb
+
+theorem C17_ill_formed_input_never_accepted_all_datum {cfg : Cfg} {mode : Mode} {bytes : List UInt8}
+    {faulty : Bool} {d : Datum} {S' : St}
+    (h : fromTraitDatum cfg (initSt mode bytes faulty) = .ok d S')
+    (hm : mode ≠ .str) (hno : ∀ b ∈ bytes, b ≠ 59) (hnb : InAllOpts.NoByteEsc bytes) :
+    Utf8.valid bytes = true :=
+  InAllOpts.C17_whole_input_valid_datum_all_no_comment h hm hno hnb
 
 /-- the same through the location-tracking reader -/
 theorem C17_ill_formed_input_never_accepted_datum {cfg : Cfg} {mode : Mode} {bytes : List UInt8}
